@@ -27,7 +27,12 @@ def load_with_actions(path):
     """(runs under the venv interpreter) normal form + per alternative: does its action raise?"""
     import c09_grammar as g
     gr = g.load(path)
-    nf = g.normal_form(path)
+    _load = g.load
+    g.load = lambda p_: gr            # normal_form would build the grammar a second time
+    try:
+        nf = g.normal_form(path)
+    finally:
+        g.load = _load
     err = {}
     for name, r in gr.rules.items():
         err[name] = [bool((is_error_rule(name) and (a.action or "").strip() not in ("UNREACHABLE", "")) or (a.action and re.search(r"self\s*\.\s*raise_", a.action)))
